@@ -145,6 +145,10 @@ class EncodeChannelStep(Contract):
     timeout_ms = 60000
     path_budget = 400
 
+    def configs_for(self, tier):
+        extra = tuple((bs, dt) for bs in ((4, 4, 4), (3, 5, 2), (16, 1, 1), (1, 1, 1)) for dt in ("<u4", "<u8")) if tier == "thorough" else ()
+        return list(self.configs) + list(extra)
+
     def local_contracts_for(self, cfg):
         return {PackAbs.target: PackAbs()}
 
